@@ -6,6 +6,7 @@ import (
 
 	"github.com/hydraide/hydraide/app/core/hydra/swamp/treasure"
 	"github.com/hydraide/hydraide/app/core/hydra/swamp/treasure/msgpackpatch"
+	"github.com/hydraide/hydraide/app/verifhook"
 )
 
 // PatchExpired atomically selects up to howMany expired treasures from
@@ -67,6 +68,9 @@ func (s *swamp) PatchExpired(howMany int32, ops []msgpackpatch.Op, condition *ms
 		s.deleteTreasureIfBeaconInitialized(s.expirationTimeBeaconDESC, t.GetKey())
 	}
 
+	if verifhook.Enabled {
+		verifhook.Point("pexp.selected", len(selected))
+	}
 	results := make([]PatchExpiredEntry, 0, len(selected))
 
 	for _, treasureObj := range selected {
@@ -79,7 +83,13 @@ func (s *swamp) PatchExpired(howMany int32, ops []msgpackpatch.Op, condition *ms
 	// before re-adding, so it is safe to call regardless of whether
 	// SaveFunction's IsExpirationTimeChanged branch already re-added
 	// any of them.
+	if verifhook.Enabled {
+		verifhook.Point("pexp.beforeReindex", len(selected))
+	}
 	s.expirationTimeBeaconASC.ReindexExpiration(selected)
+	if verifhook.Enabled {
+		verifhook.Point("pexp.reindexed", len(selected))
+	}
 	// Re-add to DESC by appending each + re-sort. addToExpirationTimeBeacon
 	// handles both ASC and DESC, but we already did ASC via ReindexExpiration
 	// so reuse the DESC half by manual Add + sort. Simpler: invoke
